@@ -133,7 +133,14 @@ def run(chk, repo):
             rows += 1
             taken = []
             for r in rets:
-                facts = path_facts(r)
+                # only the tests on the request itself select the shape;
+                # other guards (size limits ...) raise or fall through and
+                # do not choose between the returns
+                facts = [(e, t) for e, t in path_facts(r)
+                         if {n.id for n in ast.walk(e)
+                             if isinstance(n, ast.Name)} <= {
+                                 "data", "args", "isinstance", "int", "len",
+                                 "bytes", "str", "None"}]
                 try:
                     if all(bool(ev.truth(ev.eval(e, {"data": data,
                                                      "args": args}))) == t
